@@ -424,6 +424,9 @@ def run(ctx):
     ctx.notes["tlc_configurations"] = len(cfgs)
     ctx.notes["inadmissible_structures_tried"] = len(bad)
     ctx.notes["identifying_probe_points"] = nident
+    # growth beyond the listed property: the sphere-point relaxation used for n_dim >= 3
+    from . import ext_nsphere
+    ext_nsphere.run_ext(ctx, import_virocon())
 
 
 def replay(ctx, case):
